@@ -1,0 +1,57 @@
+//go:build verif
+
+// Contracts for the deductive verifier in /verif (comment-only; compiled only with -tags verif).
+
+package util
+
+//@ func ExtraDataForChain
+//@ props C01 C04 C14
+//@ pure
+//@ site tls.Marshal#1 as m
+//@ ensures [is-the-encoding] result0 == m.res0 && result1 == m.res1
+//@ at m assert [precert-chain-entry] isPrecert ==> typeof(m.val) == ct.PrecertChainEntry && as(m.val, ct.PrecertChainEntry).PreCertificate == cert && as(m.val, ct.PrecertChainEntry).CertificateChain == chain
+//@ at m assert [certificate-chain] !isPrecert ==> typeof(m.val) == ct.CertificateChain && as(m.val, ct.CertificateChain).Entries == chain
+
+//@ func ExtraDataForChainHash
+//@ props C14
+//@ pure
+//@ site tls.Marshal#1 as m
+//@ ensures [is-the-encoding] result0 == m.res0 && result1 == m.res1
+//@ at m assert [precert-chain-hash-entry] isPrecert ==> typeof(m.val) == ct.PrecertChainEntryHash && as(m.val, ct.PrecertChainEntryHash).PreCertificate == cert && as(m.val, ct.PrecertChainEntryHash).IssuanceChainHash == chainHash
+//@ at m assert [certificate-chain-hash] !isPrecert ==> typeof(m.val) == ct.CertificateChainHash && as(m.val, ct.CertificateChainHash).IssuanceChainHash == chainHash
+
+//@ func buildLogLeaf
+//@ props C01 C14
+//@ pure
+//@ site tls.Marshal#1 as ml
+//@ site ExtraDataForChain#1 as ec
+//@ site ExtraDataForChainHash#1 as eh
+//@ site sha256.Sum256#1 as sha
+//@ fresh result0
+//@ ensures [result-xor-error] (result0 != nil) != (result1 != nil)
+//@ ensures [leaf-value-is-encoded-merkle-leaf] result1 == nil ==> ml.res1 == nil && result0.LeafValue == ml.res0 && result0.LeafIndex == leafIndex
+//@ ensures [extra-data-full-chain-unless-hash-given] result1 == nil && chainHash == nil ==> ec.called && ec.res1 == nil && result0.ExtraData == ec.res0 && !eh.called
+//@ ensures [extra-data-with-hash] result1 == nil && chainHash != nil ==> eh.called && eh.res1 == nil && result0.ExtraData == eh.res0 && !ec.called
+//@ ensures [identity-hash-is-sha256-of-cert] result1 == nil ==> sha.called && len(result0.LeafIdentityHash) == 32
+//@ at ml assert [encodes-the-merkle-leaf] typeof(ml.val) == ct.MerkleTreeLeaf && as(ml.val, ct.MerkleTreeLeaf) == merkleLeaf
+//@ at ec assert [chain-args] ec.cert == cert && ec.chain == chain && ec.isPrecert == isPrecert
+//@ at eh assert [hash-args] eh.cert == cert && eh.chainHash == chainHash && eh.isPrecert == isPrecert
+//@ at sha assert [hash-over-submitted-leaf-certificate] sha.data == cert.Data
+
+//@ func BuildLogLeaf
+//@ props C01 C14
+//@ pure
+//@ site buildLogLeaf#1 as b
+//@ fresh result0
+//@ ensures [delegates] result0 == b.res0 && result1 == b.res1
+//@ ensures [result-xor-error] (result0 != nil) != (result1 != nil)
+//@ at b assert [no-chain-hash] b.merkleLeaf == merkleLeaf && b.leafIndex == leafIndex && b.cert == cert && b.chain == chain && b.chainHash == nil && b.isPrecert == isPrecert
+
+//@ func BuildLogLeafWithChainHash
+//@ props C14
+//@ pure
+//@ site buildLogLeaf#1 as b
+//@ fresh result0
+//@ ensures [delegates] result0 == b.res0 && result1 == b.res1
+//@ ensures [result-xor-error] (result0 != nil) != (result1 != nil)
+//@ at b assert [with-chain-hash] b.merkleLeaf == merkleLeaf && b.leafIndex == leafIndex && b.cert == cert && b.chain == nil && b.chainHash == chainHash && b.isPrecert == isPrecert
